@@ -197,9 +197,11 @@ class Runnable(ABC):  # pylint: disable=too-many-instance-attributes
         """
         Stop the service, allowing any do() to complete first.
         """
+        # the loop's exit path reads __shutdown to decide whether to run done(): it has to be set before the loop
+        # can see the stop request
+        self.__shutdown = forever
         self.__stopping = True
         self.wake()
-        self.__shutdown = forever
         thread = self.__thread  # otherwise race condition -- self.__thread can change value in another thread
         if thread:
             if threading.current_thread() != thread:
